@@ -128,6 +128,26 @@ theorem stepGen_eq (d : Dir) : stepWith (interpUpdateCache prog.updateCache) [d]
 theorem runGen_eq (d : Dir) (evs : List Ev) : runGen prog [d] evs = Mem.run [d] evs := by
   unfold runGen Mem.run; rw [stepGen_eq]
 
+/-- the same for EVERY non-empty direction vector (single-objective minimise / maximise, and every multi-objective study): one step of a
+history replayed with the generated `_update_cache` is the hand model's step -/
+theorem stepGen_eq_dirs (dirs : List Dir) (hd : dirs ≠ []) : stepWith (interpUpdateCache prog.updateCache) dirs = Mem.step dirs := by
+  have hupd : interpUpdateCache prog.updateCache dirs = Mem.updateCache dirs := by
+    funext m i; rw [gen_update_cache_eq dirs hd, updateCacheRef_eq]
+  funext m ev
+  cases ev with
+  | create st vals c => simp only [stepWith, Mem.step, hupd]
+  | setState i st vals => simp only [stepWith, Mem.step, hupd]; cases m.trials[i]? <;> rfl
+  | setCons i c => simp only [stepWith, Mem.step]; cases m.trials[i]? <;> rfl
+
+/-- **runGen_eq_dirs** — for every direction vector `dirs ≠ []` (a study always has at least one direction) and every history, replaying with
+the generated bookkeeping gives the hand model's state: `runGen_eq` is the instance `dirs = [d]`, for both values of `d`. -/
+theorem runGen_eq_dirs (dirs : List Dir) (hd : dirs ≠ []) (evs : List Ev) : runGen prog dirs evs = Mem.run dirs evs := by
+  unfold runGen Mem.run; rw [stepGen_eq_dirs dirs hd]
+
+example : runGen prog [.minimize, .maximize] [.create .complete (some [.fin 1, .fin 2]) .absent, .create .running none .absent,
+    .setState 1 .complete (some [.fin 0, .fin 3])] = Mem.run [.minimize, .maximize] [.create .complete (some [.fin 1, .fin 2]) .absent,
+    .create .running none .absent, .setState 1 .complete (some [.fin 0, .fin 3])] := runGen_eq_dirs _ (by simp) _
+
 /-- **gen_incremental_is_optimal** (all histories) — replaying any history of `create_new_trial` / `set_trial_state_values` / constraint
 writes with `_update_cache` as written today, the cached `best_trial_id` is an optimum of the COMPLETE trials so far (`None` exactly when
 there is none), and `InMemoryStorage.get_best_trial` as written today returns it. -/
@@ -263,6 +283,19 @@ theorem gen_best_trials_exact_history (d : Dir) (evs : List Ev) :
     interpBestTrials prog [d] (runGen prog [d] evs).trials = some (paretoSpec [d] (runGen prog [d] evs).trials) := by
   rw [runGen_eq]
   exact gen_best_trials_exact 0 [d] rfl _ (C12.history_wellformed [d] evs)
+
+/-- **gen_best_trials_exact_history_dirs** — the same for EVERY direction vector of length `k + 1 ≥ 1` (minimise and maximise in any mix,
+any number of objectives) and every history replayed with the generated bookkeeping: `Study.best_trials` as written today returns, in number
+order, exactly the eligible trials that no eligible trial dominates under those directions.  `gen_best_trials_exact_history` is `k = 0`. -/
+theorem gen_best_trials_exact_history_dirs (k : Nat) (dirs : List Dir) (hd : dirs.length = k + 1) (evs : List Ev) :
+    interpBestTrials prog dirs (runGen prog dirs evs).trials = some (paretoSpec dirs (runGen prog dirs evs).trials) := by
+  have hne : dirs ≠ [] := by intro e; rw [e] at hd; simp at hd
+  rw [runGen_eq_dirs dirs hne]
+  exact gen_best_trials_exact k dirs hd _ (C12.history_wellformed dirs evs)
+
+example : interpBestTrials prog [.minimize, .maximize]
+    (runGen prog [.minimize, .maximize] [.create .complete (some [.fin 1, .fin 2]) .absent, .create .running none .absent,
+      .setState 1 .complete (some [.fin 0, .fin 3]), .create .complete (some [.fin 2, .fin 1]) .absent]).trials = some [1] := by decide +kernel
 
 /-- `_dominates` as written today is direction-aware dominance (used by the samplers; same relation as `best_trials`). -/
 theorem gen_dominates_is_domDir (dirs : List Dir) (t0 t1 : BTrial) (a b : List EVal)
